@@ -186,7 +186,7 @@ def run(ch: Checker) -> None:
             continue
         n += 1
         sym = Sym(p)
-        f = p.facts()
+        f = list(allfacts(p).items())
         had_buffer = ('self.buffer', True) in f[:2] or (f and f[0] == ('self.buffer', True))
         calls = [(i, c) for i, st in p.stmts() for c in walk_no_nested(st) if isinstance(c, ast.Call) and (attr_chain(c.func) or '').startswith('self._process_')]
         loop_tested = any(g.nodes[nid].kind == 'test' and norm(g.nodes[nid].ast) in ('more',) for nid, lab in p.steps)
@@ -299,7 +299,7 @@ def run(ch: Checker) -> None:
                 # facts about self.state before the call, evaluated with the state value
                 ok = True
                 used = False
-                for a, pol in p.facts(calls[0][0]):
+                for a, pol in list(allfacts(p, calls[0][0]).items()):
                     if 'self.state' in a and 'httpParserStates' in a:
                         try:
                             e = ast.parse(a.replace('self.state', str(sval)), mode='eval').body
